@@ -234,21 +234,28 @@ Theorem c13_site_metadata_offset_length_pinned_refuted :
   snd (set_columns d_sites_pinned site_tbl ([[0]], [Some ([65], [0; 1]); Some ([], [0; 0; 0])])) = OOB.
 Proof. exact site_metadata_offset_length_pinned_refuted. Qed.
 
-(* ---- where the CURRENT code does not satisfy the property (finding F14, not repaired) ---- *)
+(* ---- F14 (repaired in /repo by 86175ae): historical records about the PINNED variant
+   [append_columns_gen false false] / [set_columns_gen false false]; the current model is the
+   variant selected by the regenerated flags (both true) and c13_repaired_refusal_unchanged is
+   the positive statement ---- *)
+Theorem c13_model_is_f14_repaired_variant :
+  append_columns = append_columns_gen true true /\ set_columns = set_columns_gen true true.
+Proof. split; reflexivity. Qed.
 
-Theorem c13_append_columns_not_atomic_refuted :
+
+Theorem c13_append_columns_not_atomic_pinned_refuted :
   exists t cs t', WF d_individuals t /\
     append_columns_gen false false d_individuals t cs = (t', Err TSK_ERR_BAD_OFFSET) /\
     WFb d_individuals t' = false.
-Proof. exact append_columns_not_atomic_refuted. Qed.
+Proof. exact append_columns_not_atomic_pinned_refuted. Qed.
 
-Theorem c13_set_columns_failure_clears_refuted :
+Theorem c13_set_columns_failure_clears_pinned_refuted :
   exists t cs t', WF d_nodes t /\ abs t <> [] /\
     set_columns_gen false false d_nodes t cs = (t', Err TSK_ERR_BAD_OFFSET) /\ abs t' = [].
-Proof. exact set_columns_failure_clears_refuted. Qed.
+Proof. exact set_columns_failure_clears_pinned_refuted. Qed.
 
-Theorem c13_site_add_row_after_refused_append_aborts_refuted :
+Theorem c13_site_add_row_after_refused_append_aborts_pinned_refuted :
   WF d_sites site_tbl /\
   snd (append_columns_gen false false d_sites site_tbl f14_site_cols) = Err TSK_ERR_BAD_OFFSET /\
   add_row d_sites (fst (append_columns_gen false false d_sites site_tbl f14_site_cols)) ([3], [[84]; []]) = Err BUG_ASSERT.
-Proof. exact site_add_row_after_refused_append_aborts. Qed.
+Proof. exact site_add_row_after_refused_append_aborts_pinned_refuted. Qed.
